@@ -220,6 +220,7 @@ def main(argv=None) -> int:
     if args.replay:
         return do_replay(pid, args.replay)
 
+    os.environ['VERIF_TIER'] = args.tier       # property modules size their program catalogues by tier
     t0 = time.time()
     try:
         prop = load_property(pid)
